@@ -407,6 +407,43 @@ def extract_edge_map_domain():
     raise TranslateError("`for e in self.complete_mesh.<X>` building m2b_edge / b2m_edge not found")
 
 
+INSTANCE_STATE_CLASSES = [
+    ("mouette/mesh/datatypes/volume.py", "VolumeMesh"), ("mouette/mesh/datatypes/volume.py", "VolumeMesh._Connectivity"),
+    ("mouette/mesh/datatypes/volume.py", "VolumeMesh._BoundaryConnectivity"),
+    ("mouette/mesh/datatypes/surface.py", "SurfaceMesh._Connectivity"), ("mouette/mesh/datatypes/linear.py", "PolyLine._Connectivity"),
+]
+
+
+def extract_instance_state():
+    """No state at class level: the body of each class of the connectivity hierarchy holds only a docstring, methods and
+    nested classes (a class-body assignment - `m2b_vertex : dict = dict()` - would be shared by every instance), and the six
+    index maps of `_BoundaryConnectivity` are REBOUND on `self` to fresh `dict()`s in `__init__` / `_extract_surface_boundary`
+    (not cleared in place). Returns the sorted names of the maps rebound that way."""
+    for rel, qual in INSTANCE_STATE_CLASSES:
+        tree, _ = T.load(rel)
+        cls = T.find_def(tree, qual)
+        for st in cls.body:
+            if isinstance(st, (ast.FunctionDef, ast.ClassDef, ast.Pass)): continue
+            if isinstance(st, ast.Expr) and isinstance(st.value, ast.Constant) and isinstance(st.value.value, str): continue
+            names = [getattr(t, "id", "?") for t in (st.targets if isinstance(st, ast.Assign) else [getattr(st, "target", None)]) if t is not None]
+            raise TranslateError(f"class-level statement in {qual} (state shared between instances?): {type(st).__name__} {names}")
+    tree, _ = T.load("mouette/mesh/datatypes/volume.py")
+    cls = T.find_def(tree, "VolumeMesh._BoundaryConnectivity")
+    rebound = set()
+
+    def fresh(v):
+        return isinstance(v, ast.Call) and getattr(v.func, "id", None) == "dict" and not v.args and not v.keywords
+    for fn in cls.body:
+        if isinstance(fn, ast.FunctionDef) and fn.name in ("__init__", "_extract_surface_boundary"):
+            for n in ast.walk(fn):
+                if isinstance(n, ast.Assign) and len(n.targets) == 1:
+                    t, v = n.targets[0], n.value
+                    pairs = list(zip(t.elts, v.elts)) if isinstance(t, ast.Tuple) and isinstance(v, ast.Tuple) and len(t.elts) == len(v.elts) else [(t, v)]
+                    for tt, vv in pairs:
+                        if _is_self_attr(tt) and fresh(vv): rebound.add(tt.attr)
+    return sorted(rebound)
+
+
 def extract_completed_tables():
     tree, _ = T.load("mouette/mesh/mesh_data.py")
     out = {}
@@ -476,6 +513,13 @@ def run():
 
     sites.append(T.site("volume.py:_sort_edge_neighborhoods walk loops (restart, key steps, stop test)", walks))
     sites.append(T.site("volume.py:_BoundaryConnectivity.__init__ edge map domain", edgemap))
+
+    def instance_state():
+        r = extract_instance_state()
+        parts["inststate"] = "def boundaryMapsRebound : List String := [" + ", ".join('"' + x + '"' for x in r) + "]\n"
+        return r
+
+    sites.append(T.site("volume.py/surface.py/linear.py: no class-level state; boundary maps rebound on self", instance_state))
     sites.append(T.site("volume.py:_compute_adjacent_cell face table", adj))
     sites.append(T.site("volume.py:_compute_cell_adj sub-face slice", sub))
     sites.append(T.site("volume.py:_extract_surface_boundary orientation test",
@@ -492,13 +536,14 @@ def run():
         "adj": "def adjTable : List (List Nat) := []\n",
         "walks": "def walkLoops : List (List Int) := []\n",
         "edgemap": 'def edgeMapDomain : String := ""\n',
+        "inststate": "def boundaryMapsRebound : List String := []\n",
         "sub": "def cellAdjLen : Nat := 0\ndef cellAdjRange : Nat := 0\ndef subFace (C : List Nat) (i : Nat) : List Nat := []\n",
         "bcOrient": "def bcOrientArgs : List (List Nat) := []\ndef bcOrientKeep : List Nat := []\ndef bcOrientFlip : List Nat := []\n",
         "sbOrient": "def sbOrientArgs : List (List Nat) := []\ndef sbOrientKeep : List Nat := []\ndef sbOrientFlip : List Nat := []\n",
         "completed": "def completedTable : List (List Nat) := []\ndef cellFacesTable : List (List Nat) := []\n",
     }
     body = "namespace Mouette.Generated.C03\nopen Mouette.VolLazy.Ev\n\n"
-    for k in ("guards", "meshGuards", "walks", "edgemap", "adj", "sub", "bcOrient", "sbOrient", "completed"):
+    for k in ("guards", "meshGuards", "walks", "edgemap", "inststate", "adj", "sub", "bcOrient", "sbOrient", "completed"):
         body += parts.get(k, "-- SITE NOT RECOGNISED\n" + dflt[k]) + "\n"
     body += "end Mouette.Generated.C03\n"
     T.write_generated("C03", body, header="import Mouette.Model.VolLazy\n")
